@@ -38,6 +38,47 @@ Num(i) == "n" \o ToString(i)
 Truthy(v) == v # Nil /\ v # False
 
 SeqSet(s) == {s[i] : i \in 1..Len(s)}
+
+(***************************************************************************)
+(* Module names and file names.  TLC cannot look into strings, so a module *)
+(* name comes with its dot-separated components: "p.q.r" has the parts     *)
+(* <<"p","q","r">> (NameStr(parts) = name; "u..v" has an empty part).      *)
+(* package.path is a sequence of templates; a template is a sequence of    *)
+(* "/"-separated segments, a segment a sequence of pieces, the piece "?"   *)
+(* being the mark:  d2/?/init.lua = <<<<"d2">>, <<"?">>, <<"init.lua">>>>. *)
+(* The path searcher replaces EVERY mark of a template by the module name  *)
+(* with ALL its dots turned into the directory separator (loadlib.c:       *)
+(* luaL_gsub(name, ".", LUA_DIRSEP), then luaL_gsub(template, "?", name)). *)
+(* CandRaw is that string (it is what the error message lists), CandNorm   *)
+(* the file it denotes (empty segments vanish: "d1//x.lua" = "d1/x.lua").  *)
+(* The disk maps normalised paths (sequences of segments) to loaders.      *)
+(***************************************************************************)
+Mark == "?"
+
+RECURSIVE JoinStr(_, _)
+JoinStr(ss, sep) == IF Len(ss) = 0 THEN ""
+                    ELSE IF Len(ss) = 1 THEN ss[1]
+                    ELSE ss[1] \o sep \o JoinStr(Tail(ss), sep)
+
+NameStr(parts) == JoinStr(parts, ".")
+
+(* expand one segment; acc is a non-empty sequence of strings whose last   *)
+(* element is still open: a mark appends the first part to it and opens a  *)
+(* new segment for every further part                                       *)
+RECURSIVE ExpandSeg(_, _, _)
+ExpandSeg(pieces, parts, acc) ==
+    IF Len(pieces) = 0 THEN acc
+    ELSE LET n == Len(acc) IN
+         IF Head(pieces) # Mark
+         THEN ExpandSeg(Tail(pieces), parts, [acc EXCEPT ![n] = @ \o Head(pieces)])
+         ELSE ExpandSeg(Tail(pieces), parts, [acc EXCEPT ![n] = @ \o parts[1]] \o SubSeq(parts, 2, Len(parts)))
+
+RECURSIVE CandSegs(_, _)
+CandSegs(t, parts) == IF Len(t) = 0 THEN <<>> ELSE ExpandSeg(t[1], parts, <<"">>) \o CandSegs(Tail(t), parts)
+
+CandRaw(t, parts) == JoinStr(CandSegs(t, parts), "/")
+CandNorm(t, parts) == SelectSeq(CandSegs(t, parts), LAMBDA x : x # "")
+NormPath(segs) == SelectSeq(segs, LAMBDA x : x # "")
 IsTbl(st, v) == \E i \in 1..st.nobj : v = Tbl(i)
 
 NoBeh == [pre |-> "none", reqs |-> <<>>, post |-> "none", fail |-> FALSE, ret |-> "none"]
@@ -51,16 +92,33 @@ WellFormedBeh(host, b) ==
     /\ (b.pre \in {"false", "nil"} => Len(b.reqs) = 0)
     /\ (host => b.pre # "module")
 
+(* module(), luaL_register and the global of the same name are modelled    *)
+(* for names without dots only (a dotted name denotes nested tables)       *)
+Plain(st, n) == Len(st.parts[n]) = 1
+
 (* names: sequence of distinct module names; the first nb are libraries    *)
 (* the host registered when the state was created (objects t1..t<nb>).     *)
-InitState(names, nb) ==
+(* parts[i]: components of names[i]; path: the templates of package.path   *)
+InitState(names, parts, nb, path) ==
     LET NS == SeqSet(names)
         Idx(n) == CHOOSE i \in 1..Len(names) : names[i] = n
         v0 == [n \in NS |-> IF Idx(n) <= nb THEN Tbl(Idx(n)) ELSE Nil]
-    IN [names |-> names, loaded |-> v0, glob |-> v0,
+    IN [names |-> names, parts |-> [n \in NS |-> parts[Idx(n)]], path |-> path,
+        loaded |-> v0, glob |-> v0,
         preload |-> [n \in NS |-> NoLoader],
-        files |-> [d \in 1..2 |-> [n \in NS |-> NoLoader]],
+        disk |-> <<>>,
         flds |-> {}, nobj |-> nb, ninv |-> 0, log |-> <<>>]
+
+NamesWellFormed(names, parts) ==
+    /\ Len(names) = Len(parts)
+    /\ \A i \in 1..Len(names) : Len(parts[i]) >= 1 /\ NameStr(parts[i]) = names[i]
+    /\ \A i, j \in 1..Len(names) : i # j => names[i] # names[j]
+
+OnDisk(st, p) == IF p \in DOMAIN st.disk THEN st.disk[p] ELSE NoLoader
+WriteDisk(st, p, ld) == [st EXCEPT !.disk = (p :> ld) @@ @]
+NT(st) == Len(st.path)
+CandLoader(st, n, i) == OnDisk(st, CandNorm(st.path[i], st.parts[n]))
+CandRaws(st, n) == [i \in 1..NT(st) |-> CandRaw(st.path[i], st.parts[n])]
 
 Log(st, e) == [st EXCEPT !.log = Append(@, e)]
 SetLoaded(st, n, v) == [st EXCEPT !.loaded[n] = v]
@@ -99,12 +157,12 @@ Assign(st, n, kind) ==
 
 (* the searchers: package.preload first, then the path templates in order  *)
 FindLoader(st, n) ==
-    IF st.preload[n].lid # "none" THEN [kind |-> "found", ld |-> st.preload[n]]
-    ELSE LET ds == {d \in 1..2 : st.files[d][n].lid # "none"}
-         IN IF ds = {} THEN [kind |-> "none", ld |-> NoLoader]
+    IF st.preload[n].lid # "none" THEN [kind |-> "found", ld |-> st.preload[n], raw |-> ""]
+    ELSE LET ds == {i \in 1..NT(st) : CandLoader(st, n, i).lid # "none"}
+         IN IF ds = {} THEN [kind |-> "none", ld |-> NoLoader, raw |-> ""]
             ELSE LET d == CHOOSE d \in ds : \A e \in ds : d <= e
-                     f == st.files[d][n]
-                 IN [kind |-> IF f.syn THEN "syn" ELSE "found", ld |-> f]
+                     f == CandLoader(st, n, d)
+                 IN [kind |-> IF f.syn THEN "syn" ELSE "found", ld |-> f, raw |-> CandRaw(st.path[d], st.parts[n])]
 
 IsErr(r) == r[1] = "err"
 Ok(v) == <<"ok", v>>
@@ -119,9 +177,10 @@ DoRequire(st, n) ==
           ELSE [st |-> st, res |-> Ok(v)])
     ELSE LET f == FindLoader(st, n) IN
          CASE f.kind = "none" ->
-                 \* every searcher's attempt is listed: preload field, both path templates
-                 [st |-> st, res |-> <<"err", "notfound", n, "P", "11">>]
-           [] f.kind = "syn" -> [st |-> st, res |-> <<"err", "loaderr", n>>]
+                 \* every searcher's attempt is listed: the preload field, then the file
+                 \* name every template of package.path stands for
+                 [st |-> st, res |-> <<"err", "notfound", n, "P">> \o CandRaws(st, n)]
+           [] f.kind = "syn" -> [st |-> st, res |-> <<"err", "loaderr", f.raw>>]
            [] OTHER ->
                  LET r == RunLoader(SetLoaded(st, n, Sent), f.ld, n) IN
                  IF IsErr(r.res) THEN r                 \* whatever the loader left stays
@@ -167,16 +226,20 @@ Exec(st0, op, pos) ==
       [] op.op = "preload" ->
             [st |-> [st EXCEPT !.preload[op.n] = Loader(pos, op.host, FALSE, op.beh)], res |-> NoRes]
       [] op.op = "unpreload" -> [st |-> [st EXCEPT !.preload[op.n] = NoLoader], res |-> NoRes]
-      [] op.op = "file" ->
-            [st |-> [st EXCEPT !.files[op.d][op.n] = Loader(pos, FALSE, op.syn, op.beh)], res |-> NoRes]
-      [] op.op = "rmfile" -> [st |-> [st EXCEPT !.files[op.d][op.n] = NoLoader], res |-> NoRes]
+      [] op.op = "file" -> [st |-> WriteDisk(st, NormPath(op.path), Loader(pos, FALSE, op.syn, op.beh)), res |-> NoRes]
+      [] op.op = "rmfile" -> [st |-> WriteDisk(st, NormPath(op.path), NoLoader), res |-> NoRes]
+      [] op.op = "path" -> [st |-> [st EXCEPT !.path = op.tpl], res |-> NoRes]
       [] op.op = "clear" -> [st |-> SetLoaded(st, op.n, Nil), res |-> NoRes]
       [] op.op = "glob" -> LET m == MkVal(st, op.kind) IN [st |-> [m.st EXCEPT !.glob[op.n] = m.v], res |-> NoRes]
       [] op.op = "register" -> Register(st, op.n, op.f)
 
-OpWellFormed(op) ==
-    CASE op.op = "preload" -> WellFormedBeh(op.host, op.beh)
-      [] op.op = "file" -> WellFormedBeh(FALSE, op.beh)
+OpWellFormed(st, op) ==
+    CASE op.op = "preload" -> WellFormedBeh(op.host, op.beh) /\ (op.beh.pre = "module" => Plain(st, op.n))
+      [] op.op = "file" -> /\ WellFormedBeh(FALSE, op.beh)
+                           /\ (op.beh.pre = "module" => \A n \in SeqSet(st.names) : Plain(st, n))   \* any name may find the file
+                           /\ Len(NormPath(op.path)) >= 1
+      [] op.op = "rmfile" -> Len(NormPath(op.path)) >= 1
+      [] op.op \in {"glob", "register"} -> Plain(st, op.n)
       [] OTHER -> TRUE
 
 (* what is visible after an operation *)
